@@ -74,9 +74,12 @@ func newPlanter(r *fw.Rand, scen *gen.Scenario, p float64, quiet, trAll bool) *p
 	return &planter{r: r, p: p, quiet: quiet, trAll: trAll, scen: scen, where: map[string]bool{}}
 }
 
-var globalForms = []string{"@globals.%s", "@(globals.%s)", "@(upper(globals.%s))", "@(default(globals.%s, \"-\"))", "@(globals.%s & \"\")", "@GLOBALS.%s"}
+var globalForms = []string{"@globals.%s", "@(globals.%s)", "@(upper(globals.%s))", "@(default(globals.%s, \"-\"))", "@(globals.%s & \"\")", "@GLOBALS.%s",
+	// inside the body of an anonymous function
+	"@(join(foreach(array(\"a\", \"b\"), (x) => globals.%s & x), \",\"))", "@(foreach(array(1), (v) => default(globals.%s, v))[0])"}
 var fieldForms = []string{"@fields.%s", "@contact.fields.%s", "@(fields.%s)", "@(text(contact.fields.%s))", "@(default(parent.fields.%s, \"-\"))", "@(default(child.fields.%s, \"-\"))",
-	"@(default(parent.contact.fields.%s, \"-\"))", "@(default(child.contact.fields.%s, \"-\"))", "@Contact.Fields.%s"}
+	"@(default(parent.contact.fields.%s, \"-\"))", "@(default(child.contact.fields.%s, \"-\"))", "@Contact.Fields.%s",
+	"@(join(foreach(array(\"a\", \"b\"), (x) => x & fields.%s), \",\"))", "@(foreach(array(1), (v) => default(contact.fields.%s, v))[0])"}
 
 // ref makes a reference to a fresh global / field. plain: no spaces / quotes (URLs, queries); short: identifier form.
 func (pl *planter) ref(plain, short bool) string {
